@@ -61,8 +61,9 @@ def judge_pair(case) -> Verdict:
 @st.composite
 def pair_st(draw, tier):
     platform = draw(st.sampled_from(["ios", "nxos"]))
-    top = draw(G.ace_st(platform, kmax=4, groups=False, empty_sets=False, seq=False, noise=False, established=False))
-    bottom = draw(G.mutate_ace(top, platform, kmax=4, groups=False, empty_sets=False, established=False))
+    kmax = draw(st.sampled_from([4, 4, 4, 4, 4, 4, 7, 7, 9]))  # large expansions: the cover test may switch strategy
+    top = draw(G.ace_st(platform, kmax=kmax, groups=False, empty_sets=False, seq=False, noise=False, established=False))
+    bottom = draw(G.mutate_ace(top, platform, kmax=kmax, groups=False, empty_sets=False, established=False))
     if draw(st.integers(0, 9)) == 0:
         top, bottom = bottom, top
     if draw(st.sampled_from(range(6))) == 0:
